@@ -152,7 +152,7 @@ func ProfileFor(prop, tier string, seed uint64) *Profile {
 		}
 	case "C14":
 		pf.WFail = 30
-		pf.FailAnyK = true
+		pf.FailAnyK = v%2 == 1 // half of the runs avoid the trigger of the open finding and are strict everywhere
 		pf.WRestart = 6
 		pf.Boundary = 3
 		pf.Stmts = [2]int{10, 40}
@@ -181,6 +181,7 @@ func ProfileFor(prop, tier string, seed uint64) *Profile {
 		pf.Tables = [2]int{1, 3}
 	case "C18":
 		pf.WRaw = 40
+		pf.RawMutations = true
 		pf.WFail = 10
 		pf.WBadDB = 4
 		pf.WUseSwitch = 2
